@@ -77,7 +77,9 @@ def handleReport (line : String) : String :=
             -- the cut-off function crashed or did not come back: no threshold (C15) and, since the report calls the
             -- same function on the same data, no report either (C14)
             if cutS == "!" then [s!"C15:cutoff-crash-or-diverge:p={prcnt}:n={n}", s!"C14:report-blocked-by-cutoff:p={prcnt}:n={n}"]
-            else if outS == "!" then ["C14:report-crash-or-diverge"]
+            -- the report computation failed for a request it must serve: no report (C14), and the marking — which for
+            -- every p in 0..100 has to be computed without crashing — was not produced either (C15)
+            else if outS == "!" then ["C14:report-crash-or-diverge", s!"C15:marking-not-produced:p={prcnt}"]
             else match unhex (if outS == "-" then "" else outS) with
               | none => ["C14:unreadable"]
               | some bytes =>
